@@ -55,7 +55,7 @@ class Driver(object):
         except Exception:
             self.pcsize = 32
 
-    def life(self, b, all_syntaxes=True):
+    def life(self, b, all_syntaxes=True, stages=("render", "pickle", "apply")):
         """events of one input"""
         isa = self.isa
         ev = []
@@ -86,7 +86,7 @@ class Driver(object):
                 pass
         iclass = isa.dis.iclass
         try:
-            for name, f in (self.syn if all_syntaxes else self.syn[:1]):
+            for name, f in ((self.syn if all_syntaxes else self.syn[:1]) if "render" in stages else ()):
                 iclass.set_formatter(f)
                 r, exc = D.guarded(str, i)
                 if exc is not None:
@@ -100,6 +100,8 @@ class Driver(object):
                     ev.append({"st": "toks", "syn": name, "k": "list" if isinstance(r, list) else type(r).__name__})
         finally:
             iclass.set_formatter(self.cur)
+        if "pickle" not in stages:
+            return ev
         # pickle round trip
         fp0 = D.fingerprint(i, skip=())
         j, exc = D.guarded(lambda: pickle.loads(pickle.dumps(i)))
@@ -109,6 +111,8 @@ class Driver(object):
             ok = type(j) is type(i)
             ev.append({"st": "pickle", "k": "ok" if ok else "othertype", "fp0": fp0,
                        "fp1": D.fingerprint(j, skip=()) if ok else ""})
+        if "apply" not in stages:
+            return ev
         # apply to a fresh map
         self.cap.take()
         m = self.mapper()
@@ -122,6 +126,9 @@ class Driver(object):
         isa.reset_mode()
         self.regs.restore()
         return ev
+
+
+MAX_TIMEOUTS_PER_SPEC = 2
 
 
 def gen_inputs(isa, rng, specs, fillings, nrandom):
@@ -151,11 +158,19 @@ def run_chunk(args):
     rng = random.Random("%s/%s/%d/%d" % (isa_name, mode, lo, seed))
     specs = list(enumerate(isa.specs()))[lo:hi]
     traces = []
+    hung = {}       # spec -> number of inputs that ran into the watchdog
+    skipped = 0
     for src, b in gen_inputs(isa, rng, specs, fillings, nrandom):
+        sp = src.rsplit(":", 1)[0]
+        if hung.get(sp, 0) >= MAX_TIMEOUTS_PER_SPEC:
+            skipped += 1        # two inputs of this spec already did not come back: do not pay for more
+            continue
         ev = drv.life(b, all_syn)
+        if any(e.get("exc") == "Timeout" for e in ev):
+            hung[sp] = hung.get(sp, 0) + 1
         traces.append({"kind": "c17", "m": "%s/%s" % (isa_name, mode), "src": src, "in": list(b), "ev": ev})
     return {"isa": isa_name, "mode": mode, "nspecs": len(isa.specs()), "syntaxes": [n for n, _ in drv.syn],
-            "traces": traces}
+            "traces": traces, "skipped_after_timeouts": skipped}
 
 
 def spec_count(args):
@@ -165,6 +180,29 @@ def spec_count(args):
         return (isa_name, mode, len(isa.specs()), None)
     except Exception as ex:
         return (isa_name, mode, 0, "%s: %s" % (type(ex).__name__, ex))
+
+
+def deep_chunk(args):
+    """discovery aid (harness/dec_findings.py --deep): decode + render only, many fillings per spec;
+    returns one example trace per distinct (stage, outcome kind, exception, call site, wf projection)"""
+    isa_name, mode, lo, hi, fillings, seed = args
+    D.watchdog_init()
+    D.mute_stdout()
+    drv = Driver(isa_name, mode)
+    isa = drv.isa
+    rng = random.Random("deep/%s/%s/%d/%d" % (isa_name, mode, lo, seed))
+    specs = list(enumerate(isa.specs()))[lo:hi]
+    seen = {}
+    n = 0
+    for src, b in gen_inputs(isa, rng, specs, fillings, 0):
+        n += 1
+        ev = drv.life(b, True, stages=("render",))
+        for k, e in enumerate(ev):
+            sig = (e["st"], e["k"], e.get("exc"), e.get("at"), e.get("hook"), tuple(e.get("opk", ())),
+                   e.get("mnstr"), e.get("mnlen", 1) >= 1, e.get("type", 0) in range(-1, 6), e.get("len", 1) >= 1)
+            if sig not in seen and (e["k"] == "raised" or e["st"] == "decode"):
+                seen[sig] = {"kind": "c17", "m": "%s/%s" % (isa_name, mode), "src": src, "in": list(b), "ev": ev, "line": k + 1}
+    return {"n": n, "traces": list(seen.values())}
 
 
 def timed_chunk(args):
